@@ -28,7 +28,7 @@ merged() { # $1 = relative package dir ("." for root)
 hooks='stackStorage.set=AccessSet(s, n, n == len(s.data));stackStorage.get=AccessGet(s, n);Stack.ToSlice=AccessRange(s.storage, s.offs, s.size)'
 build/bin/vrewrite -in "$(merged .)" -out "$out/repo/root" > "$out/root.log"
 build/bin/vrewrite -in "$(merged funcGen)" -out "$out/repo/funcGen" -hooks "$hooks" > "$out/funcGen.log"
-build/bin/vrewrite -in "$(merged value)" -out "$out/repo/value" > "$out/value.log"
+build/bin/vrewrite -in "$(merged value)" -out "$out/repo/value" -fields "List.items,List.itemsPresent,List.iterable,List.size" > "$out/value.log"
 # iterator module: rewritten copy
 itdir="$(cd "$REPO" && go list -m -f '{{.Dir}}' github.com/hneemann/iterator)"
 mkdir -p "$out/iterator"
